@@ -36,6 +36,14 @@ func defFor(check string) *checkDef {
 			rule: "as C02 with the whole torn-variant set, plus crash / recover / continue / crash: a seeded subset of the images of each run (biased to torn snapshot files and to instants just after snapshot persists and removals) is continued by a further simulated run with a fresh writer and more workload, whose own trace is enumerated again (depth 2, thorough 3). Oracle per image: the opening process neither dies nor panics, OpenReader/OpenWriter succeed whenever a snapshot had been completed, recovered content = exactly one abstract state (prefix of the applied batches), the recovered writer accepts a batch, reads it back, closes, and the batch survives a reopen",
 			assume: commonAssume,
 			probes: []string{"same-epoch-rewrite-after-recovery", "file-merge", "in-memory-merge"}}
+	case "C15", "C15close", "C15knownV2", "C15knownStats":
+		return &checkDef{property: "C15", level: "exploration", race: true, timeout: 600 * time.Second,
+			env:      []string{"GORACE=halt_on_error=1 exitcode=66"},
+			variants: []string{"C15", "C15", "C15close", "C15", "C15knownV2", "C15", "C15close", "C15knownStats"},
+			budget:   map[string]tierCfg{"quick": {700, 80}, "thorough": {40000, 1800}},
+			rule: "three kinds of simulated run under a -race build of the simulator: (a) concurrent windows: every window releases a seeded SET of 2-6 parked actors at once (clients batching, several clients reading one shared Reader through the optimised conjunction/disjunction paths, stored-field loads, Stats()/MemoryUsed(), reader acquisition, persister, merger, closer), so code regions released together have no happens-before edge and any conflicting access pair is reported by the race detector whatever the real timing; the harness is quiet there (no shared mutex between actors); (b) Close at an arbitrary scheduled moment once callers have returned, one release per window (replayable): Close must return (deterministic hang verdict), the three loops must exit, the directory must reopen with every acknowledged batch in a state the index went through; (c) a dedicated unshielded ice-v2 run that exercises the listed known finding. distinct = distinct release sequences; non-trivial = background step interleaved between client operations",
+			assume: append([]string{"the Go race detector reports only real races; which regions overlap is decided by the tape, the detector's verdict does not depend on real timing", "for ice v2 segments stored-field access is serialised by the harness wrapper (shield) in (a) so that the listed known race cannot mask others"}, commonAssume...),
+			probes: []string{"concurrent-windows", "close-while-background-work-in-progress", "reopened-after-early-close"}}
 	case "C11":
 		return &checkDef{property: "C11", level: "exploration",
 			budget: map[string]tierCfg{"quick": {2500, 75}, "thorough": {100000, 1500}},
